@@ -49,6 +49,24 @@ func hostileCorpus(seed int64) ([][]byte, map[string]reflect.Type) {
 			out = append(out, b)
 		}
 	}
+	// long lists: only their headers are damaged by MutGen (first offsets), the body stays present
+	for _, v := range []interface{}{make([]int32, 1100), make([]interface{}, 1100), make([]string, 1030)} {
+		b, err := hessian.ToBytes(v, nm)
+		if err == nil {
+			out = append(out, b)
+		}
+	}
+	// well-formed messages no Go value produces: containers that contain themselves
+	out = append(out,
+		[]byte{0x79, 0x51, 0x90},                                     // fixed list holding itself
+		[]byte{0x57, 0x51, 0x90, 0x5a},                               // variable list holding itself
+		[]byte{0x48, 0x51, 0x90, 0x91, 0x5a},                         // map with itself as key
+		[]byte{0x48, 0x01, 0x6b, 0x51, 0x90, 0x5a},                   // map with itself as value
+		[]byte{0x48, 0x79, 0x51, 0x91, 0x91, 0x5a},                   // map whose key is a list holding itself
+		[]byte{0x7a, 0x79, 0x51, 0x91, 0x51, 0x90},                   // list of (list holding itself, outer list)
+		[]byte{0x71, 0x04, 0x5b, 0x69, 0x6e, 0x74, 0x51, 0x90},       // typed list [int holding itself
+		[]byte{0x48, 0x48, 0x51, 0x91, 0x51, 0x90, 0x5a, 0x91, 0x5a}, // map keyed by a map that refers to both
+	)
 	return out, tm
 }
 
@@ -60,8 +78,8 @@ func runHostileCorpus(seed int64, out string) {
 	defer w.Flush()
 	msgs, _ := hostileCorpus(seed)
 	for i, b := range msgs {
-		if len(b) > 400 {
-			continue // long messages are damaged by the random / prefix generators instead
+		if len(b) > 1500 {
+			continue // very long messages are damaged by the random / prefix generators instead
 		}
 		j, _ := json.Marshal(proj.M{"id": i, "b": proj.Octets(b)})
 		w.Write(j)
